@@ -4,6 +4,7 @@ import itertools
 import abbr_gen as g
 import c01_lex as lex
 import c01_routes as routes
+import c01_rare as rare
 from markup_util import run_cases, canon_cfg
 
 CONFIGS = [{}, {'syntax': 'xml'}, {'options': {'output.selfClosingStyle': 'xhtml'}},
@@ -34,6 +35,7 @@ INLINE_PARENTS_FULL = True   # generator class "nameless element below EVERY doc
 LEXICAL_CASE = True          # generator class "every spelling of names and class / id / attribute identifiers, side by side" on / off
 NUMBERING_AT_OPERATORS = True   # generator class "numbering tokens in identifiers, directly in front of every operator" on / off
 CALL_ROUTES = True           # generator class "every documented call route x global-config layers for the type / the syntax" on / off
+RARE_SYNTAX = True           # generator classes "every documented form of the attribute set on a nameless element", "text nodes / `{}` / `[]` in every position before every operator", "statements whose last groups are not closed yet" on / off (harness/c01_rare.py; `{}` / `[]` directly before `>`: c01_rare.EMPTY_NODE_CHILDREN)
 LONG_LIVED_CONFIG = True     # generator class "ONE Config / dict object over a sequence of calls, its context / options re-assigned in between" on / off
 
 
@@ -539,6 +541,42 @@ def call_routes(ctx):
     ctx.cov['call_route_cases'] = len(cases)
 
 
+def rare_parents():
+    """Parents of the nameless elements of the rare-syntax classes: every documented mapped parent, some documented
+    inline elements, block / unknown names."""
+    from emmet.snippets import markup_snippets
+    inline = [n for n in ('em', 'strong', 'b', 'i', 'q', 'u', 'span', 'sub', 'code', 'small') if n not in markup_snippets]
+    block = [n for n in ('div', 'section', 'li', 'td', 'custom', 'x-y', 'h1') if n not in markup_snippets]
+    return sorted(g.IMPLICIT_DOC) + inline + block
+
+
+def rare_syntax(ctx, model):
+    """Documented but rare spellings of a unit (harness/c01_rare.py): cases with ONE denotation that must be accepted go
+    through implementation + extracted model + property oracle, the others (`[]`: two accepted readings; open groups:
+    may be rejected) through implementation + property oracle only."""
+    from markup_util import impl_expand
+    use_documented_inline()
+    names, snips = vocabulary()
+    cases = rare.rare_cases(ctx, names, CONFIGS, rare_parents())
+    strict = [(a, c, m[0]) for a, c, m, rej in cases if len(m) == 1 and not rej]
+    loose = [(a, c, m, rej) for a, c, m, rej in cases if not (len(m) == 1 and not rej)]
+    impl = run_cases(ctx, model, strict, 'C01', None)
+    results = [(a, c, [m], False, r) for (a, c, m), r in zip(strict, impl)]
+    for a, c, m, rej in loose:
+        results.append((a, c, m, rej, impl_expand(a, c)))
+        ctx.count_eval()
+    for abbr, cfg, metas, rej, r in results:
+        if len(metas[0]) >= 2:
+            ctx.nontrivial(abbr)
+        bad = rare.judge(g.html_preorder, metas, rej, r)
+        if bad:
+            ctx.property_failure('C01:rare:%s|%s' % (abbr, canon_cfg(cfg)), 'C01 expand(%r, %s): %s' % (abbr[:300], canon_cfg(cfg), bad),
+                                 {'component': 'C01-rare', 'abbr': abbr, 'config': cfg, 'metas': metas, 'may_reject': rej,
+                                  'impl': repr(r)[:500], 'why': bad})
+    ctx.cov['rare_syntax'] = {'cases': len(cases), 'through_model': len(strict), 'oracle_only': len(loose),
+                              'attribute_forms': len(rare.ATTR_FORMS), 'empty_unit_children': rare.EMPTY_NODE_CHILDREN}
+
+
 def session_failures(sess, results):
     return [(k, oracle(st['abbr'], sess['config'], [tuple(x) for x in st['meta']], r))
             for k, (st, r) in enumerate(zip(sess['steps'], results))]
@@ -638,9 +676,28 @@ def run(ctx):
                        '(self-closing style of the built-in syntax profiles, user config > global syntax entry > built-in profile) are '
                        'hard-coded in harness/c01_routes.py; never generated: a style conflict between the global TYPE entry and a '
                        'built-in SYNTAX profile (C20 subject); '
+                       'rare syntax (rare:*, harness/c01_rare.py): (1) attr-forms: a NAMELESS element written with every documented form of '
+                       'the attribute set -- `[t]`, `[t=v]`, double / single quoted, `[t={v}]`, explicitly empty values `[t=]` `[t=""]` '
+                       "`[t='']`, boolean `[t.]`, implied `[!t]` `[!t.]` `[!t=v]` `[!t=\"\"]`, default-attribute values `[\"v\"]` `['v']` "
+                       '`[""]`, two / three attributes of one or of mixed forms (all implied, all boolean, implied + plain ...), white '
+                       'space inside the brackets, dashed / namespaced / upper-case attribute names -- alone and beside a class / id / '
+                       'text, below every documented mapped parent and inline / block / unknown parents (quick: about 45%% of the parent '
+                       'x form pairs, 2 of 9 frames each; thorough: all), as child with children, leaf, nested twice, below a repeated '
+                       'parent, with an own *N, inside a repeated group, after a climb, in groups ending the statement, at top level; '
+                       'the same forms on named elements; (2) empty-units: `{}`, `{text}` (text node: no tag, later units keep their '
+                       'place), `[]`, `[ ]`, with and without *N, as first unit, child, between siblings, below a repeated parent, in '
+                       'front of a nameless element, at a group start, inside one / two groups ending the statement, after a climb, '
+                       'directly followed by each of `>` `+` `^` `^^` `)` and the end; `[]` names no attribute: both readings (no '
+                       'element / one element with the implicit name) are accepted; `{}` / `[]` directly before `>` is generated only '
+                       'with c01_rare.EMPTY_NODE_CHILDREN (now %s); (3) every 2-unit skeleton and a seed-chosen share of the 3-unit '
+                       'skeletons with each position in turn taken by `{}` / `{t}` / `[]` / `[!t]` / `[t.]`; (4) random statements mixing '
+                       'all of these; (5) open-groups: every such statement that ends in group(s) without *N also as typed so far, '
+                       'i.e. without the closing `)` (`w>(x>{}+y`): may be rejected with a positioned error, otherwise the tree must be '
+                       'the denoted one; cases with one denotation that must be accepted go through implementation + extracted model + '
+                       'oracle, `[]` cases and open groups through implementation + oracle only; '
                        'non-trivial = denotes at least two elements; distinct by abbreviation text. Oracle: element tree of '
                        'the output (tag parser) = independent denotation of the AST (inline-ness from the hard-coded documented list). '
-                       'Excluded shapes: ")>" (child of a group).' % (DEEP_MAX - 10, DEEP_MAX - 10, MODEL_INDENT_BUDGET))
+                       'Excluded shapes: ")>" (child of a group).' % (DEEP_MAX - 10, DEEP_MAX - 10, MODEL_INDENT_BUDGET, 'on' if rare.EMPTY_NODE_CHILDREN else 'off'))
     cases, oracle_only = gen(ctx)
     impl = run_cases(ctx, model, cases, 'C01', None)      # implementation + model correspondence
     impl += run_cases(ctx, None, oracle_only, 'C01', None)  # implementation only
@@ -652,6 +709,8 @@ def run(ctx):
             ctx.property_failure('C01:%s|%s' % (abbr, canon_cfg(cfg)), 'C01 expand(%r, %s): %s' % (abbr[:300], canon_cfg(cfg), bad),
                                  {'component': 'C01', 'abbr': abbr, 'config': cfg, 'meta': meta, 'impl': repr(r)[:500], 'why': bad})
     poisoned_sequences(ctx, cases)
+    if RARE_SYNTAX:
+        rare_syntax(ctx, model)
     if CALL_ROUTES:
         call_routes(ctx)
     if LONG_LIVED_CONFIG:
@@ -698,6 +757,11 @@ def replay(ctx, obj):
         r = routes.run_route(rp['route'], rp['abbr'], rp['config'], rp['global'])
         bad = oracle(rp['abbr'], rp['config'], [tuple(x) for x in rp['meta']], r)
         print('%s: abbr=%r config=%r global=%r -> %s : %s' % (rp['route'], rp['abbr'], rp['config'], rp['global'], repr(r)[:600], bad or 'property holds'))
+        return 1 if bad else 0
+    if rp.get('component') == 'C01-rare':
+        r = impl_expand(rp['abbr'], rp['config'])
+        bad = rare.judge(g.html_preorder, rp['metas'], rp.get('may_reject', False), r)
+        print('expand(%r, %r) -> %s : %s' % (rp['abbr'], rp['config'], repr(r)[:600], bad or 'property holds'))
         return 1 if bad else 0
     if rp.get('component') == 'C01-session':
         results = routes.run_session(rp)
